@@ -58,6 +58,8 @@ def rule_serde_is_derived(inv):
     for s in method_and_indicator_structs(inv) + [e for e in inv["enums"] if "/src/methods/" in e["file"] or "/src/indicators/" in e["file"] or e["file"].endswith("helpers/methods.rs") or e["file"].endswith("core/action.rs") or e["file"].endswith("core/candles.rs")]:
         if s["name"] in ("WindowIterator", "ReversedWindowIterator", "RenkoOutput", "SerializableWindow", "DeserializedSMM", "WithHistory", "WithLastValue", "RandomCandles", "RenkoBlock"):
             continue
+        if s["file"].endswith("indicators/example.rs"):
+            continue  # the documentation example indicator: not part of the shipped set, carries no serde derive
         items += 1
         if s["name"] in HAND_SERDE:
             continue
